@@ -16,7 +16,7 @@ AtomTable(j) ==
         IN  [kind |-> j.atoms[k].kind, arg |-> PFromTerms(j.atoms[k].arg), pair |-> j.atoms[k].pair]]
 
 ToDef(j) ==
-    [ns |-> j.ns, np |-> j.np, nd |-> j.nd, n |-> j.n,
+    [ns |-> j.ns, np |-> j.np, npx |-> j.np, nd |-> j.nd, n |-> j.n,
      atoms   |-> AtomTable(j),
      derived |-> [k \in 1..Len(j.derived) |-> PFromTerms(j.derived[k])],
      events  |-> [e \in 1..Len(j.events) |->
